@@ -291,6 +291,35 @@ def cyc_canon(s):
     return best[1]
 
 
+def merge_axis_lines(s):
+    """closed contour -> the same outline with every on-curve point removed that lies strictly inside a straight
+    horizontal (or vertical) run of two line segments going the same way.  The charstring specialiser (optimizeCFF >= 1)
+    merges such runs into one hlineto/vlineto argument: the shape drawn is the same, one collinear point is gone."""
+    kind, start, segs, trailing = s
+    if kind != "closed" or len(segs) < 3:
+        return s
+    segs = list(segs)
+    changed = True
+    while changed and len(segs) >= 3:
+        changed = False
+        n = len(segs)
+        for i in range(n):
+            a, b = segs[i], segs[(i + 1) % n]
+            if a[0] != "line" or b[0] != "line":
+                continue
+            p0, p1, p2 = segs[i - 1][-1], a[-1], b[-1]
+            for ax in (0, 1):
+                o = 1 - ax
+                if p0[o] == p1[o] == p2[o] and (p1[ax] - p0[ax]) * (p2[ax] - p1[ax]) > 0:
+                    # drop p1: segment a disappears, b now runs p0 -> p2
+                    del segs[i]
+                    changed = True
+                    break
+            if changed:
+                break
+    return (kind, segs[-1][-1], segs, ())
+
+
 def recorded_to_segments(value, snap_eps=None):
     """RecordingPen.value of a compiled glyph -> list of closed segment cycles"""
     out, cur, start = [], None, None
